@@ -177,6 +177,8 @@ func driveSessionsRace(rc *RunCtx) {
 		fail  string
 	}
 	ss := make([]*sess, S)
+	LibConcurrency = 16
+	defer func() { LibConcurrency = 2 }()
 	for i := range ss {
 		w := NewWorld(rc.EntropySeed(fmt.Sprintf("session-%d", i)), NewChooser(0, nil, true))
 		w.Quiet = true
